@@ -71,7 +71,7 @@ PROPS = {
                 rule="identity update vs none (bit equality), rescale / reweight / adversarial rewrites at iteration k; non-trivial = rewrite with >=2 pairs in memory",
                 explanation="theorems filter_spec / filter_id on the memory model and C13_identity on the driver model; restart clause in exact arithmetic",
                 assumptions=COMMON_ASSUME),
-    "C14": dict(monitor=D3, level="other", corr=["driver"],
+    "C14": dict(monitor=D3, level="other", corr=["driver:log", "driver:restart"],
                 rule="all interleavings of the first L objective calls of two runs on two threads (L=5 quick, 7 thorough), random long schedules, nested runs, read-only inputs, iprint levels, double restart",
                 explanation="partial: purity scan of the package (no shared mutable state written) as a generated Coq fact + the model is a pure function; threads/aliasing/logging observed on the implementation",
                 assumptions=COMMON_ASSUME + ["CPython threads, in-place mutation and logging are outside the model"]),
